@@ -184,6 +184,11 @@ def run(ctx):
                 return
             pd, pm = rng.choice(PREFS), rng.choice(PREFS)
             st = {"PREFER_DAY_OF_MONTH": pd, "PREFER_MONTH_OF_YEAR": pm}
+            # the statement ties what a format leaves open to the CURRENT date: a reference time given for relative dates
+            # (another year, month and day than today, naive or aware) plays no part
+            if rng.random() < 0.25:
+                rb = [rng.choice([1999, 2015, 2031]), rng.randint(1, 12), rng.randint(1, 28), rng.randint(0, 23), 30, 0, 0]
+                st["RELATIVE_BASE"] = rb if rng.random() < 0.6 else {"dt": rb, "tz": rng.choice([-18000, 19800, 50400, 0])}
             cases.append({"fmt": fmt, "fl": fl, "dt": [dt[0], dt[1], dt[2], dt[3], dt[4], dt[5], dt[6]], "pdom": pd, "pmoy": pm,
                           "s": render(fmt, dt, names), "kw": {"languages": [lang], "date_formats": with_decoys(rng, fmt)}, "settings": st, "api": "ddp",
                           "probe": False, "lang": lang, "words": words})
